@@ -565,7 +565,7 @@ class Project:
         """
         try:
             for d in os.listdir(self.workspace):
-                if JOB_ID_REGEX.match(d):
+                if JOB_ID_REGEX.fullmatch(d):
                     yield d
         except OSError as error:
             if error.errno == errno.ENOENT:
